@@ -542,7 +542,7 @@ impl Check for GCheck {
         }
     }
     fn units(&self, tier: Tier, _seed: u64) -> u64 {
-        tier.pick(32, 640)
+        tier.pick(96, 960)
     }
     fn run_unit(&self, unit: u64, ctx: &mut Ctx) {
         let n = match self.mode {
@@ -583,14 +583,14 @@ impl Check for GCheck {
         }
     }
     fn floors(&self, tier: Tier) -> Vec<(&'static str, u64)> {
-        let n = tier.pick(300, 20_000);
+        let n = tier.pick(900, 30_000);
         let mut v = vec![("programs", n), ("programs_with_includes", n / 4), ("gen:stmt:multiclass", n / 10), ("gen:multiclass:no-template-args", n / 40), ("gen:stmt:defset", n / 20), ("gen:stmt:if", n / 20), ("gen:stmt:let", n / 20), ("gen:stmt:foreach", n / 20)];
         match self.mode {
             GMode::Resolution => {
                 v.extend([("use:parent-class", n), ("use:field-init", n), ("use:template-arg-value", n / 2), ("use:bang-body", n / 4), ("use:def-name-paste", n / 20), ("use:if-condition", n / 40), ("use:foreach-range", n / 100), ("use:cross-file", n / 4), ("dead-use:if-then-defvar", n / 100), ("dead-use:foreach-iterator", n / 100), ("decl:bang-var", n / 4), ("gen:scope:shadowing-defvar", n / 40)]);
             }
             GMode::Diagnostics => {
-                v = vec![("clean_programs", tier.pick(200, 10_000)), ("fault:undefined-class", 100), ("fault:undefined-multiclass", 30), ("fault:undefined-identifier", 100), ("fault:undefined-include", 50), ("fault:missing-template-arg", 50), ("fault:surplus-template-arg", 100), ("fault:type-incompatible-initialiser", 100), ("fault:type-incompatible-let", 50), ("fault:type-incompatible-argument", 100), ("fault:operator-arity", 50), ("fault:syntax-delete-token", 100), ("fault:syntax-insert-token", 100), ("fault_in_included_file", 50)];
+                v = vec![("clean_programs", tier.pick(600, 15_000)), ("fault:undefined-class", 100), ("fault:undefined-multiclass", 30), ("fault:undefined-identifier", 100), ("fault:undefined-include", 50), ("fault:missing-template-arg", 50), ("fault:surplus-template-arg", 100), ("fault:type-incompatible-initialiser", 100), ("fault:type-incompatible-let", 50), ("fault:type-incompatible-argument", 100), ("fault:operator-arity", 50), ("fault:syntax-delete-token", 100), ("fault:syntax-insert-token", 100), ("fault_in_included_file", 50)];
             }
             GMode::Outline => {
                 v.extend([("outline:Class", n), ("outline:Def", n), ("outline:Defset", n / 20), ("outline:Multiclass", n / 10), ("outline:defset-with-children", n / 20), ("fold:class", n), ("fold:if", n / 20), ("fold:let", n / 20)]);
